@@ -4,11 +4,17 @@
 ROOT="$(cd "$(dirname "${BASH_SOURCE[0]}")/.." && pwd)"
 cd "$ROOT"
 miss=0; n=0
+# changes that do not violate the property they were written against (DESIGN.md sections 9 and 11): expected to pass
+DOCUMENTED="mutants/C09-validate-restores-dense-only.patch mutants/C11-subtract-order-in-loop.patch mutants/C13-window-one-longer.patch mutants/data-dependent/C12-data/ mutants/data-dependent/C01-data/"
+doc=0
 run() { # patch prop label
   n=$((n+1))
   r=$(tools/try_patch.sh "$1" $2 2>&1 | tail -1)
-  case "$r" in *"caught by: $2"*) ;; *) echo "NOT CAUGHT: $3 ($r)"; miss=$((miss+1));; esac
+  case "$r" in
+    *"caught by: $2"*) case " $DOCUMENTED " in *" $3 "*) echo "UNEXPECTEDLY CAUGHT (documented as not violating): $3";; esac ;;
+    *) case " $DOCUMENTED " in *" $3 "*) doc=$((doc+1)); echo "not caught, as documented: $3";; *) echo "NOT CAUGHT: $3 ($r)"; miss=$((miss+1));; esac ;;
+  esac
 }
 for f in mutants/*.patch; do run "$ROOT/$f" "$(basename $f | cut -c1-3)" "$f"; done
 for d in seeded/*/ mutants/beyond-bounds/*/ mutants/data-dependent/*/; do [ -f "$d/patch.diff" ] && run "$ROOT/$d/patch.diff" "$(basename $d | cut -c1-3)" "$d"; done
-echo "regress: $n changes, $miss not caught"
+echo "regress: $n changes, $miss not caught, $doc documented as not violating (equivalent / left open by the statement / decided by another property)"
